@@ -387,6 +387,28 @@ func genEntries(r *Rng) []entry {
 			}
 		}
 	}
+	// "all numbers of players", any player indices: now and then a crowd, and indices that are sparse and large
+	if r.Chance(0.04) {
+		extra := 50 + r.Intn(30)
+		for k := 0; k < extra; k++ {
+			c := levels[r.Intn(nl)]
+			es = append(es, entry{idx: n + k, contrib: c, fold: r.Chance(0.5), score: int64(1 + r.Intn(3))})
+		}
+		n = len(es)
+	}
+	if r.Chance(0.08) {
+		used := map[int]bool{}
+		for i := range es {
+			for {
+				x := r.Intn(400)
+				if !used[x] {
+					used[x] = true
+					es[i].idx = x
+					break
+				}
+			}
+		}
+	}
 	r.Shuffle(n, func(i, j int) { es[i], es[j] = es[j], es[i] })
 	return es
 }
